@@ -121,6 +121,23 @@ func b32aliasCheck(str string, idx []uint32, want string) string {
 		if o.String() != s0 || o.ParentFingerprint() != fp0 || o.Depth() != d0 {
 			return "ALIAS:object-changed-by-deriving-from-it"
 		}
+		// … and what is derived from an object must not depend on what was derived from it BEFORE: the children of `o`
+		// (which has just derived 0, 1, 7 and a hardened child) equal the children of a fresh parse of its string
+		// (seed C14-6: Child kept its HMAC input in a per-key buffer; a hardened derivation after a non-hardened one
+		// hashed a stale first byte)
+		if fresh, err := hdkeychain.NewKeyFromString(s0); err == nil {
+			for _, i := range []uint32{hdkeychain.HardenedKeyStart, 3, hdkeychain.HardenedKeyStart + 1} {
+				c1, e1 := o.Child(i)
+				c2, e2 := fresh.Child(i)
+				if (e1 == nil) != (e2 == nil) || (e1 == nil && c1.String() != c2.String()) {
+					return "ALIAS:child-depends-on-earlier-derivations"
+				}
+				fresh, _ = hdkeychain.NewKeyFromString(s0)
+				if fresh == nil {
+					break
+				}
+			}
+		}
 	}
 	k := p
 	for _, i := range idx {
